@@ -120,9 +120,14 @@ chk("C17", "E2+E3", "model_checking",
     "(b) driver (native DSE + z3): a stream Err(e) or a reduce Some(Err(e)) at any point (also during recovery) is returned unchanged, the stream is never polled again, no action/expected-list/recovery runs afterwards.",
     E2_NOTE + " " + E3_NOTE, "bounded model checking (Kani) of the real reduce step + dynamic symbolic execution (z3) of the real driver", "DESIGN.md §3 C17")
 
+chk("C03", "kernels+generator", "model_checking",
+    "PARTIAL (soundness half + differential): (a) for suspect corpus grammars Kani decides bounded ambiguity on the SPECIFICATION grammar (counting CYK over a symbolic string <= N, cover = two derivation trees); "
+    "every grammar with a witness (and the corpus' LR(2) grammars) must be rejected with a conflict under lane-table, canonical LR(1) and LALR(1); (b) lane-table and canonical LR(1) verdicts must agree on every corpus grammar, "
+    "LALR acceptance implies LR(1) acceptance, LR(1)-not-LALR grammars are rejected only with #[LALR]. The completeness half ('never a conflict for an LR(1) grammar') is NOT decided beyond that differential.",
+    "Trusted: rustc/Kani/CBMC; the counting CYK generator (props/c03.py); classification of corpus grammars (textbook / lane-table paper). The deciding solver step concerns the specification grammar; the code under test contributes its verdict.",
+    "bounded model checking (Kani/CBMC) of a counting CYK for ambiguity witnesses, compared with the generator's conflict verdict under three configurations", "DESIGN.md §3 C03")
+
 _pending = "check not built yet in this session (see DESIGN.md plan); will be claimed when its engine lands"
-for p in ["C03"]:
-    NA[p] = _pending
 NA["C07"] = "needs symbolic execution of the generated recursive-ascent code; Kani cannot (probe P2: >7 GB at N=1), not generic so the native symbolic driver cannot instantiate it"
 NA["C18"] = "the code is the grammar-file tokenizer, the self-hosted parser and the normaliser over interned strings/BTreeMaps; the tokenizer does not fit Kani even for 2 symbolic characters (probe P13)"
 NA["C19"] = "verdict belongs to rustc's type checker on generated code; no bounded symbolic input to solve for"
